@@ -124,13 +124,13 @@ Section LoopFacts.
     - (* write, write *) apply upsert_comm. exact keq_spec. exact Hne.
     - (* write, delete *) apply upsert_remove_comm. exact keq_spec. exact Hne.
     - (* delete, write *) symmetry. apply upsert_remove_comm. exact keq_spec. intro E. apply Hne. symmetry. exact E.
-    - (* delete, delete *) apply remove_remove_comm.
+    - (* delete, delete *) apply remove_remove_comm. exact keq_spec.
     - (* append, append *)
       rewrite <- !app_assoc. apply Permutation_app_head. apply perm_swap.
-    - (* int, int *) f_equal. lia.
-    - (* or, or *) f_equal. destruct b; destruct (g k1 v1); destruct (g0 k2 v2); reflexivity.
-    - (* and, and *) f_equal. destruct b; destruct (g k1 v1); destruct (g0 k2 v2); reflexivity.
-    - (* flag, flag *) f_equal. f_equal. symmetry. eapply Hflag; reflexivity.
+    - (* int, int *) lia.
+    - (* or, or *) destruct b; destruct (g k1 v1); destruct (g0 k2 v2); reflexivity.
+    - (* and, and *) destruct b; destruct (g k1 v1); destruct (g0 k2 v2); reflexivity.
+    - (* flag, flag *) f_equal. symmetry. eapply Hflag; reflexivity.
   Qed.
 
   Definition stmts_compatible (s1 s2 : stmt) : Prop :=
@@ -195,7 +195,7 @@ Section LoopFacts.
     - exact state_equiv_Equivalence.
     - intros s s' x H. unfold exec_body. apply exec_stmts_cong. exact H.
     - intros s [k1 v1] [k2 v2] Hne. unfold exec_body. simpl in *.
-      apply exec_many_many_comm. intros a b Ha Hb. apply body_safe_compatible; assumption. exact Hne.
+      apply exec_many_many_comm. intros a b Ha Hb. apply (body_safe_compatible body); assumption. exact Hne.
     - exact Hp.
     - exact Hnd.
   Qed.
